@@ -104,6 +104,35 @@ impl Campaign for C06c {
                 steps: segment(&msgs, seg, *g.pick(&[0u64, MS]), &mut g),
                 ..Default::default()
             };
+            if index % 8 == 3 && ci == 0 {
+                // the last request carries a streamed body (Content-Length or chunked, optionally
+                // expecting 100-continue) of which the client sends only the beginning; it sends the
+                // rest once it has all final responses. The handler answers or drops without reading.
+                let r = n;
+                let id = format!("c{}r{}", ci, r);
+                let mut rq = Req::get(&id);
+                rq.method = "POST".into();
+                let payload = token_body(&format!("q{}", id), 3000);
+                if g.chance(1, 3) {
+                    rq.headers.push(("Expect".into(), "100-continue".into()));
+                }
+                let chunked = g.chance(1, 3);
+                if chunked {
+                    rq.headers.push(("Transfer-Encoding".into(), "chunked".into()));
+                    rq.body = chunk_encode(&payload, &[700]);
+                } else {
+                    rq.headers.push(("Content-Length".into(), payload.len().to_string()));
+                    rq.body = payload;
+                }
+                let all = rq.bytes();
+                let head_len = all.len() - rq.body.len();
+                let cut = head_len + *g.pick(&[0usize, 1, 1500]);
+                c.steps.push(ClientStep::Send(B(all[..cut].to_vec())));
+                c.steps.push(ClientStep::AwaitFinals(n + 1));
+                c.steps.push(ClientStep::Send(B(all[cut..].to_vec())));
+                let finish = if g.chance(1, 2) { Finish::Drop } else { Finish::Respond(RespSpec::simple(200, token_body(&id, 10))) };
+                sc.programs.insert(id, Program { delay: 0, after: vec![], body: BodyPlan::None, delay2: 0, finish });
+            }
             c.coalesce = g.chance(1, 2);
             if g.chance(1, 4) {
                 c.short_writes = Some(*g.pick(&[3usize, 200]));
